@@ -783,9 +783,10 @@ func runReaderDiscipline(c *Ctx) {
 	if bom == nil || nw == nil {
 		return
 	}
-	// encoding/csv.NewReader is called only inside BOMAwareCSVReader, on transform.NewReader(reader, unicode.BOMOverride(...))
-	var elsewhere []string
-	okChain := false
+	// every encoding/csv.NewReader of the library is created over transform.NewReader(reader, unicode.BOMOverride(...)),
+	// whichever function creates it
+	var bare []string
+	n := 0
 	for _, fn := range p.ModFns {
 		pk := fnPkgPath(fn)
 		if strings.HasSuffix(pk, "/cmd") || strings.HasSuffix(pk, "/performance") || strings.Contains(pk, "/internal/") {
@@ -797,30 +798,29 @@ func runReaderDiscipline(c *Ctx) {
 				if !ok || calleeName(call) != "encoding/csv.NewReader" {
 					continue
 				}
-				if fn != bom {
-					elsewhere = append(elsewhere, shortName(fn)+" at "+p.ipos(call))
-					continue
-				}
+				n++
 				bd := newBinder(c)
 				expr := bd.bind(call.Call.Args[0])
-				if strings.Contains(expr, "transform.NewReader(param:reader") && strings.Contains(expr, "unicode.BOMOverride(") {
-					okChain = true
+				if !(strings.Contains(expr, "transform.NewReader(") && strings.Contains(expr, "unicode.BOMOverride(")) {
+					bare = append(bare, shortName(fn)+" at "+p.ipos(call)+" reads "+clip(expr, 80))
 				}
 			}
 		}
 	}
-	c.Check(len(elsewhere) == 0 && okChain, "A4", shortName(bom), "CSV bytes pass through the BOM-aware transformer", p.pos(bom.Pos()),
-		"encoding/csv.NewReader is created only over transform.NewReader(reader, unicode.BOMOverride(...))",
-		"a CSV reader is created without the BOM transformer ("+strings.Join(elsewhere, "; ")+"): a byte-order mark ends up inside the first header name, or quoting after a BOM fails")
-	// csv.New uses it for the header and for all rows
+	c.Check(len(bare) == 0 && n > 0, "A4", "csv", "CSV bytes pass through the BOM-aware transformer", p.pos(bom.Pos()),
+		fmt.Sprintf("all %d encoding/csv.NewReader calls read from transform.NewReader(reader, unicode.BOMOverride(...))", n),
+		"a CSV reader is created without the BOM transformer ("+strings.Join(bare, "; ")+"): a byte-order mark ends up inside the first header name, or quoting after a BOM fails")
+	// csv.New reads the header and all rows through such a reader: the *encoding/csv.Reader it keeps in the File
 	bd := newBinder(c)
-	okNew := false
-	for _, fs := range collectFieldStores([]*ssa.Function{nw}, "csv.File") {
-		if fs.field == "csvReader" {
-			if strings.HasPrefix(bd.bind(fs.store.Val), "BOMAwareCSVReader(") {
-				okNew = true
+	okNew, nR := true, 0
+	for _, fs := range collectFieldStores(c.regionOf(nw), "csv.File") {
+		if strings.HasSuffix(fs.store.Val.Type().String(), "encoding/csv.Reader") {
+			nR++
+			e := bd.bind(fs.store.Val)
+			if !(strings.Contains(e, "BOMAwareCSVReader(") || (strings.Contains(e, "transform.NewReader(") && strings.Contains(e, "unicode.BOMOverride("))) {
+				okNew = false
 			}
 		}
 	}
-	c.Check(okNew, "A4", shortName(nw), "File reads through BOMAwareCSVReader", p.pos(nw.Pos()), "File.csvReader = BOMAwareCSVReader(reader)", "csv.New does not read the file through BOMAwareCSVReader")
+	c.Check(okNew && nR > 0, "A4", shortName(nw), "File reads through BOMAwareCSVReader", p.pos(nw.Pos()), "the File's *csv.Reader is BOMAwareCSVReader(reader)", "csv.New does not read the file through BOMAwareCSVReader")
 }
